@@ -8,7 +8,7 @@ import XdocModel.Dynamic
 Trees travel as a `;`-joined list of tokens (each token a codec string) in prefix order:
 `tree := stmt* "E"`, `stmt := "F" async name decos doc tree | "C" name decos doc tree |
 "I" isCompare op0Eq optstr optstr optstr optstr runsThen runsElse tree tree | "B" runs tree | "M" name | "O"`,
-`decos := n (kind value)^n` (`kind`: N name, A attribute, X other), `doc := "0" | "1" text endline startline`,
+`decos := n (kind value)^n` (`kind`: N name, A attribute, E name or call of a name bound by an import, X other), `doc := "0" | "1" text endline startline`,
 `optstr := "0" | "1" text`. -/
 namespace Xdoc.Driver
 open Xdoc Py Static Google Core Dynamic
@@ -25,7 +25,8 @@ def parseDecos : Nat → Toks → Option (List Deco × Toks)
     match parseDecos n r with
     | none => none
     | some (ds, r') =>
-      let d : Deco := if tokIs k "N" then .name v else if tokIs k "A" then .attr v else .other
+      let d : Deco := if tokIs k "N" then .name v else if tokIs k "A" then .attr v
+                      else if tokIs k "E" then .ext v else .other
       some (d :: ds, r')
   | _, _ => none
 
